@@ -3,8 +3,39 @@
 
 package render
 
+import (
+	t "github.com/google/wuffs/lang/token"
+)
+
 // Hooks for /verif property C12 (compiled only with -tags verif).
 
 // VerifAppendNum exposes appendNum (digit grouping / upper-casing of a
 // numeric literal's text).
 func VerifAppendNum(s string) string { return string(appendNum(nil, s)) }
+
+// The hooks below (round 2) expose the helper functions of Render one by one,
+// for a per-function correspondence with the Lean model.
+
+// VerifMeasureVarNameLength exposes measureVarNameLength.
+func VerifMeasureVarNameLength(tm *t.Map, lineTokens []t.Token, remaining []t.Token) uint32 {
+	return measureVarNameLength(tm, lineTokens, remaining)
+}
+
+// VerifFindColon exposes findColon.
+func VerifFindColon(lineTokens []t.Token) int { return findColon(lineTokens) }
+
+// VerifAppendComment exposes appendComment(nil, comments, line, indent, otherwiseEmpty).
+func VerifAppendComment(comments []string, line uint32, indent int, otherwiseEmpty bool) string {
+	return string(appendComment(nil, comments, line, indent, otherwiseEmpty))
+}
+
+// VerifAppendTabs exposes appendTabs(nil, nTabs).
+func VerifAppendTabs(nTabs int) string { return string(appendTabs(nil, nTabs)) }
+
+// VerifIsCloseIdentLiteral exposes isCloseIdentLiteral.
+func VerifIsCloseIdentLiteral(tm *t.Map, x t.ID) bool { return isCloseIdentLiteral(tm, x) }
+
+// VerifIsCloseIdentStrLiteralQuestion exposes isCloseIdentStrLiteralQuestion.
+func VerifIsCloseIdentStrLiteralQuestion(tm *t.Map, x t.ID) bool {
+	return isCloseIdentStrLiteralQuestion(tm, x)
+}
